@@ -125,7 +125,7 @@ def main():
              "kind_free_text": "AST of make_recover/recover_index/recover_offset in /repo's map.py translated to QF_BVFP terms; z3 shows them equal to the integer models used during symbolic runs"},
         ],
         "checks": checks,
-        "notes": "Solver-based checking of the real code (CrossHair 0.0.110 + z3 5.1; direct z3 encodings for C06/C15/C08-lemma). DESIGN.md sections 10-11 (11.3/11.4: defect-hunting triage) describe the system as built. known_findings.json: 30 fix: commits in /repo recorded as fixed entries (their counterexamples are replayed on every run) and open findings (C18 fitter escape in table-like schemas, C12 drop_point in the strict schema and lift_target on nested lists, C08 mirror round trip on adjacent ranges, C11 open slice missing leading content, C11 positions inside a surrogate pair, C04 node-mark eviction and markup-to-leaf undo, C14 same_set order, C08 deleted_after on insertions, C03 empty-gap replace-around map). seeded/ holds 52 confirmed breaking changes written by sub-agents, all caught by the current checks (tools/try_seeded.sh). Verdicts are bounded: see each evidence file's bounds and assumptions.",
+        "notes": "Solver-based checking of the real code (CrossHair 0.0.110 + z3 5.1; direct z3 encodings for C06/C15/C08-lemma). DESIGN.md sections 10-11 (11.3/11.4: defect-hunting triage) describe the system as built. known_findings.json: 30 fix: commits in /repo recorded as fixed entries (their counterexamples are replayed on every run) and open findings (C18 fitter escape in table-like schemas, C12 drop_point in the strict schema and lift_target on nested lists, C08 mirror round trip on adjacent ranges, C11 open slice missing leading content, C11 positions inside a surrogate pair, C04 node-mark eviction and markup-to-leaf undo, C14 same_set order, C08 deleted_after on insertions, C03 empty-gap replace-around map). seeded/ holds 59 confirmed breaking changes (one of them superseded by a later fix) written by sub-agents, all caught by the current checks (tools/try_seeded.sh). Verdicts are bounded: see each evidence file's bounds and assumptions.",
         "not_applicable": na + extra_na,
     }
     json.dump(man, open(os.path.join(ROOT, "MANIFEST.json"), "w"), indent=1)
